@@ -144,16 +144,16 @@ Proof.
   unfold ADF_MAXIMUM_LINK_DEPTH. destruct (Z.gtb_spec (depth + 1) 100); [discriminate|]. apply IH; lia.
 Qed.
 
-Theorem chase_returns uc f d e : no_stack (chase uc f d e) -> no_stack (chase uc (S f) d e).
+Theorem chase_returns v uc f d e : no_stack (chase v uc f d e) -> no_stack (chase v uc (S f) d e).
 Proof.
   intros Hch s i. cbn [chase].
-  assert (Hb : snd (let '(s', r) := chase_loop (chase uc f d e) d e LOOP_FUEL 0 s i in
+  assert (Hb : snd (let '(s', r) := chase_loop (chase v uc f d e) d e LOOP_FUEL 0 s i in
                     match r with
                     | Ok l => ((if uc && negb (nid_eqb l i) then mkRs (Some (i, l)) (r_log s') else s'), Ok l)
                     | Err x => (s', Err x)
                     end) <> Err EStack).
   { pose proof (chase_loop_no_stack _ d e Hch LOOP_FUEL 0 s i) as H.
-    destruct (chase_loop (chase uc f d e) d e LOOP_FUEL 0 s i) as [s' [l|x]]; cbn [snd] in *; [discriminate|].
+    destruct (chase_loop (chase v uc f d e) d e LOOP_FUEL 0 s i) as [s' [l|x]]; cbn [snd] in *; [discriminate|].
     apply H; [lia|unfold LOOP_FUEL; lia]. }
   destruct (r_cache s) as [[k l]|]; [|exact Hb].
   destruct (uc && nid_eqb k i); [|exact Hb]. cbn [snd]. destruct (node_at d l); discriminate.
@@ -223,34 +223,48 @@ Proof.
 Qed.
 
 (* ===================================================================================================================
-   3. ... but chase and path walking call each other WITHOUT a counter: a link whose stored path passes through the
-      link itself never resolves -- whatever the recursion budget, the answer is "out of stack"
+   3. chase and path walking call each other.  Old had NO counter for that recursion: a link whose stored path passes
+      through the link itself exhausted every budget ("out of stack").  Cur counts the nested activations: the same
+      link now fails with LINKS_TOO_DEEP, and NO world can make a resolution run out of stack.
    =================================================================================================================== *)
 Definition fA : bytes := [97].                                  (* file "a" *)
 Definition w_nest : disk :=                                     (* /L  ->  (same file) "/L/x" *)
   [mkD fA 1 (adf_root_table ++ [mkN 1 0 [76] [] s_LK [] [] (Some ([], [47; 76; 47; 120]))])].
 
-Lemma nest_hop_a ch s : ch s (fA, 0) = (s, Err EStack) -> hop ch w_nest empty_env s (fA, 1) = (s, Err EStack).
-Proof. intros H. unfold fA in *. unfold hop. cbn. unfold root_of, root_uid. cbn. rewrite H. reflexivity. Qed.
+Lemma oob_not_notfound v : oob v <> ENotFound.
+Proof. destruct v; discriminate. Qed.
 
-Lemma nest_hop_b ch s : ch s (fA, 0) = (s, Ok (fA, 0)) -> ch s (fA, 1) = (s, Err EStack) ->
-  hop ch w_nest empty_env s (fA, 1) = (s, Err EStack).
-Proof. intros H1 H2. unfold fA in *. unfold hop. cbn. unfold root_of, root_uid. cbn. rewrite H1. cbn. rewrite H2. reflexivity. Qed.
+Lemma nest_hop_a ch s x : x <> ENotFound -> ch s (fA, 0) = (s, Err x) -> hop ch w_nest empty_env s (fA, 1) = (s, Err x).
+Proof. intros Hx H. unfold fA in *. unfold hop. cbn. unfold root_of, root_uid. cbn. rewrite H. destruct x; try reflexivity. contradiction. Qed.
 
-Lemma nest_root uc f s : r_cache s = None -> chase uc (S f) w_nest empty_env s (fA, 0) = (s, Ok (fA, 0)).
+Lemma nest_hop_b ch s x : x <> ENotFound -> ch s (fA, 0) = (s, Ok (fA, 0)) -> ch s (fA, 1) = (s, Err x) ->
+  hop ch w_nest empty_env s (fA, 1) = (s, Err x).
+Proof.
+  intros Hx H1 H2. unfold fA in *. unfold hop. cbn. unfold root_of, root_uid. cbn. rewrite H1. cbn. rewrite H2.
+  destruct x; try reflexivity. contradiction.
+Qed.
+
+Lemma nest_root v uc f s : r_cache s = None -> chase v uc (S f) w_nest empty_env s (fA, 0) = (s, Ok (fA, 0)).
 Proof.
   intros Hc. cbn [chase]. rewrite Hc. unfold LOOP_FUEL. rewrite chase_loop_S. unfold hop. cbn.
   rewrite andb_false_r. reflexivity.
 Qed.
 
-Theorem nested_cycle_never_returns uc : forall f s, r_cache s = None ->
-  chase uc f w_nest empty_env s (fA, 1) = (s, Err EStack).
+(* whatever the budget, the answer is "out of budget": a stack overflow for Old, LINKS_TOO_DEEP for Cur *)
+Theorem nested_cycle_out_of_budget v uc : forall f s, r_cache s = None ->
+  chase v uc f w_nest empty_env s (fA, 1) = (s, Err (oob v)).
 Proof.
   induction f as [|f IH]; intros s Hc; [reflexivity|].
   cbn [chase]. rewrite Hc. unfold LOOP_FUEL. rewrite chase_loop_S.
   destruct f as [|f].
-  - rewrite nest_hop_a; reflexivity.
-  - rewrite nest_hop_b; [reflexivity|now apply nest_root|now apply IH].
+  - rewrite (nest_hop_a _ s (oob v)); [reflexivity|apply oob_not_notfound|reflexivity].
+  - rewrite (nest_hop_b _ s (oob v)); [reflexivity|apply oob_not_notfound|now apply nest_root|now apply IH].
+Qed.
+
+(* TERMINATION for the current code: no world, no link graph, no state makes a resolution run out of stack *)
+Theorem cur_never_out_of_stack uc d e : forall f, no_stack (chase Cur uc f d e).
+Proof.
+  induction f as [|f IH]; [intros s i; cbn; discriminate|]. now apply chase_returns.
 Qed.
 
 (* ===================================================================================================================
@@ -341,17 +355,17 @@ Proof. exact I. Qed.
 Lemma cache_sane_log d : log_stable (cache_sane d).
 Proof. intros s a b H. exact H. Qed.
 
-Theorem chase_pres uc d e : forall f, pres (cache_sane d) (nonlink d) (chase uc f d e).
+Theorem chase_pres v uc d e : forall f, pres (cache_sane d) (nonlink d) (chase v uc f d e).
 Proof.
   induction f as [|f IH]; intros s i Hs; [cbn; split; [assumption|discriminate]|].
   cbn [chase].
-  assert (Hb : let x := (let '(s', r) := chase_loop (chase uc f d e) d e LOOP_FUEL 0 s i in
+  assert (Hb : let x := (let '(s', r) := chase_loop (chase v uc f d e) d e LOOP_FUEL 0 s i in
                     match r with
                     | Ok l => ((if uc && negb (nid_eqb l i) then mkRs (Some (i, l)) (r_log s') else s'), Ok l)
                     | Err x => (s', Err x)
                     end) in cache_sane d (fst x) /\ forall l, snd x = Ok l -> nonlink d l).
   { destruct (chase_loop_pres _ _ _ d e IH (cache_sane_log d) LOOP_FUEL 0 s i Hs) as [H1 H2].
-    destruct (chase_loop (chase uc f d e) d e LOOP_FUEL 0 s i) as [s' [l|x]]; cbn [fst snd] in *; [|split; [assumption|discriminate]].
+    destruct (chase_loop (chase v uc f d e) d e LOOP_FUEL 0 s i) as [s' [l|x]]; cbn [fst snd] in *; [|split; [assumption|discriminate]].
     destruct (H2 l eq_refl) as [Hn Hi]. split; [|intros l0 H0; inversion H0; now subst].
     destruct (uc && negb (nid_eqb l i)) eqn:E; [|assumption].
     apply andb_true_iff in E. destruct E as [_ E]. unfold cache_sane. cbn [r_cache]. split; [|assumption].
@@ -364,29 +378,29 @@ Qed.
 
 (* TRANSPARENT: whatever is read through a node that resolves is read from a node that is not a link -- the target --
    and equals that node's own attribute *)
-Theorem adf_transparent uc fuel d e s i what s' v :
-  cache_sane d s -> adf_get uc fuel d e s i what = (s', AVal v) -> what <> 0 -> what <> 4 -> what <> 5 ->
-  exists l, chase uc fuel d e s i = (s', Ok l) /\ nonlink d l /\ v = node_attr d l what /\ cache_sane d s'.
+Theorem adf_transparent v uc fuel d e s i what s' val :
+  cache_sane d s -> adf_get v uc fuel d e s i what = (s', AVal val) -> what <> 0 -> what <> 4 -> what <> 5 ->
+  exists l, chase v uc fuel d e s i = (s', Ok l) /\ nonlink d l /\ val = node_attr d l what /\ cache_sane d s'.
 Proof.
   intros Hs H H0 H4 H5. unfold adf_get in H. destruct (node_at d i) as [r|]; [|discriminate].
   destruct (Z.eqb_spec what 0); [contradiction|]. destruct (Z.eqb_spec what 4); [contradiction|].
   destruct (Z.eqb_spec what 5); [contradiction|].
-  destruct (chase_pres uc d e fuel s i Hs) as [P1 P2].
-  destruct (chase uc fuel d e s i) as [s1 [l|x]]; [|discriminate]. inversion H; subst. exists l.
+  destruct (chase_pres v uc d e fuel s i Hs) as [P1 P2].
+  destruct (chase v uc fuel d e s i) as [s1 [l|x]]; [|discriminate]. inversion H; subst. exists l.
   repeat split; [now apply P2|assumption].
 Qed.
 
 (* a direct read of a node that is not a link never goes anywhere else (so "the target's own attribute" above is
    what a direct read of the target returns in the same session) *)
-Theorem adf_direct uc f d e s l what : cache_sane d s -> nonlink d l -> what <> 0 -> what <> 4 -> what <> 5 ->
-  adf_get uc (S f) d e s l what = (s, AVal (node_attr d l what)).
+Theorem adf_direct v uc f d e s l what : cache_sane d s -> nonlink d l -> what <> 0 -> what <> 4 -> what <> 5 ->
+  adf_get v uc (S f) d e s l what = (s, AVal (node_attr d l what)).
 Proof.
   intros Hs [r [Hr Hl]] H0 H4 H5. unfold adf_get. rewrite Hr.
   destruct (Z.eqb_spec what 0); [contradiction|]. destruct (Z.eqb_spec what 4); [contradiction|].
   destruct (Z.eqb_spec what 5); [contradiction|].
-  assert (Hc : chase uc (S f) d e s l = (s, Ok l)).
+  assert (Hc : chase v uc (S f) d e s l = (s, Ok l)).
   { cbn [chase].
-    assert (Hb : (let '(s', r0) := chase_loop (chase uc f d e) d e LOOP_FUEL 0 s l in
+    assert (Hb : (let '(s', r0) := chase_loop (chase v uc f d e) d e LOOP_FUEL 0 s l in
                   match r0 with
                   | Ok l0 => ((if uc && negb (nid_eqb l0 l) then mkRs (Some (l, l0)) (r_log s') else s'), Ok l0)
                   | Err x => (s', Err x)
@@ -457,7 +471,7 @@ Qed.
 
 (* whatever the operation and its outcome, a mutation of file f leaves every other file of the world alone; and a
    failed one changes nothing at all *)
-Theorem mutate_other_files s f o s' r : adf_mutate s f o = (s', r) ->
+Theorem mutate_other_files v s f o s' r : adf_mutate v s f o = (s', r) ->
   forall g, g <> f -> disk_get (a_disk s') g = disk_get (a_disk s) g.
 Proof.
   unfold adf_mutate. destruct (negb (file_open s f)); [intros H; inversion H; reflexivity|].
@@ -471,10 +485,11 @@ Proof.
            | context [add_child_effect ?a ?b ?c] => destruct (add_child_effect a b c)
            | context [find_node ?a ?b] => destruct (find_node a b)
            | context [if ?c then _ else _] => destruct c
+           | context [match v with Old => _ | Cur => _ end] => destruct v
            end; inversion H; cbn [a_disk with_disk]; now apply Hd.
 Qed.
 
-Theorem mutate_failure_changes_nothing s f o s' : adf_mutate s f o = (s', RErr) -> s' = s.
+Theorem mutate_failure_changes_nothing v s f o s' : adf_mutate v s f o = (s', RErr) -> s' = s.
 Proof.
   unfold adf_mutate. destruct (negb (file_open s f)); [intros H; now inversion H|].
   destruct (disk_get (a_disk s) f) as [df|]; [|intros H; now inversion H].
@@ -485,6 +500,7 @@ Proof.
            | context [add_child_effect ?a ?b ?c] => destruct (add_child_effect a b c)
            | context [find_node ?a ?b] => destruct (find_node a b)
            | context [if ?c then _ else _] => destruct c
+           | context [match v with Old => _ | Cur => _ end] => destruct v
            end; inversion H.
 Qed.
 
@@ -509,9 +525,9 @@ Qed.
 (* deleting a link node (a leaf of its own table: nothing can be created below a link) removes exactly that record:
    every other node of every file -- the target and everything under it included -- is the record it was, child
    lists lose the link and nothing else, and the resolution cache is cleared *)
-Theorem delete_link_non_owning s f p u s' df r :
+Theorem delete_link_non_owning v s f p u s' df r :
   disk_get (a_disk s) f = Some df -> find_node (d_tab df) u = Some r -> is_link r = true -> children (d_tab df) u = [] ->
-  adf_mutate s f (ODelete p u) = (s', ROk) ->
+  adf_mutate v s f (ODelete p u) = (s', ROk) ->
   a_cache s' = None /\
   (forall g, g <> f -> disk_get (a_disk s') g = disk_get (a_disk s) g) /\
   (exists df', disk_get (a_disk s') f = Some df' /\
@@ -519,7 +535,7 @@ Theorem delete_link_non_owning s f p u s' df r :
      find_node (d_tab df') u = None /\
      (forall q, children (d_tab df') q = filter (fun x => negb (n_uid x =? u)) (children (d_tab df) q))).
 Proof.
-  intros Hg Hf Hl Hc H. pose proof (mutate_other_files _ _ _ _ _ H) as Hother.
+  intros Hg Hf Hl Hc H. pose proof (mutate_other_files _ _ _ _ _ _ H) as Hother.
   unfold adf_mutate in H. destruct (negb (file_open s f)); [discriminate|].
   rewrite Hg in H. destruct (step_table false (d_tab df) (ODelete p u)) as [t' r0] eqn:Es.
   destruct r0; try discriminate; inversion H; subst s'; clear H. cbn [a_cache a_disk].
@@ -527,7 +543,7 @@ Proof.
   exists (mkD f (d_type df) t'). split; [apply (disk_get_set_same (a_disk s) (mkD f (d_type df) t'))|]. cbn [d_tab].
   destruct (delete_frame false _ _ _ _ Es) as [D1 [D2 D3]]. rewrite (descendants_leaf _ _ Hc) in *.
   split; [|split].
-  - intros v r1 Hv Hr1. apply D1; [assumption|]. intros [E|[]]. congruence.
+  - intros w r1 Hv Hr1. apply D1; [assumption|]. intros [E|[]]. congruence.
   - apply D2. now left.
   - intros q. rewrite D3. apply filter_ext. intros x. cbn [existsb]. now rewrite orb_false_r.
 Qed.
@@ -558,9 +574,9 @@ Qed.
 Definition cache_misses (s : rs) (i : nid) : Prop :=
   match r_cache s with Some (k, _) => nid_eqb k i = false | None => True end.
 
-Lemma chase_miss uc f d e s i : cache_misses s i ->
-  chase uc (S f) d e s i =
-  let '(s', r) := chase_loop (chase uc f d e) d e LOOP_FUEL 0 s i in
+Lemma chase_miss v uc f d e s i : cache_misses s i ->
+  chase v uc (S f) d e s i =
+  let '(s', r) := chase_loop (chase v uc f d e) d e LOOP_FUEL 0 s i in
   match r with
   | Ok l => ((if uc && negb (nid_eqb l i) then mkRs (Some (i, l)) (r_log s') else s'), Ok l)
   | Err x => (s', Err x)
@@ -571,10 +587,10 @@ Proof.
 Qed.
 
 (* the file named by the link is nowhere on the search path: LINKED_TO_FILE_NOT_THERE, state untouched *)
-Theorem dangling_file uc f d e s i r file path :
+Theorem dangling_file v uc f d e s i r file path :
   node_at d i = Some r -> adf_link_of r = Some (file, path) -> nonempty file = true ->
   (forall p, find_file d e (fst i) file 1 (ADF_FILENAME_LENGTH + 1) <> FOk p) -> cache_misses s i ->
-  chase uc (S f) d e s i = (s, Err ELinkFile).
+  chase v uc (S f) d e s i = (s, Err ELinkFile).
 Proof.
   intros Hn Hl Hf Hff Hm. rewrite chase_miss by assumption. unfold LOOP_FUEL. rewrite chase_loop_S. unfold hop.
   rewrite Hn, Hl, Hf. destruct (find_file d e (fst i) file 1 (ADF_FILENAME_LENGTH + 1)) eqn:E; try reflexivity.
@@ -582,13 +598,13 @@ Proof.
 Qed.
 
 (* the file is there (or the link is local) but the path names no node: LINK_TARGET_NOT_THERE *)
-Theorem dangling_path uc f d e s i r file path s0 root s1 :
+Theorem dangling_path v uc f d e s i r file path s0 root s1 :
   node_at d i = Some r -> adf_link_of r = Some (file, path) ->
   (if nonempty file then exists p, find_file d e (fst i) file 1 (ADF_FILENAME_LENGTH + 1) = FOk p /\
                                   s0 = log_add s (fst i) p /\ root = (p, root_uid)
    else s0 = s /\ root = root_of i) ->
-  get_node_id (chase uc f d e) d s0 root path = (s1, Err ENotFound) -> cache_misses s i ->
-  chase uc (S f) d e s i = (s1, Err ELinkTarget).
+  get_node_id (chase v uc f d e) d s0 root path = (s1, Err ENotFound) -> cache_misses s i ->
+  chase v uc (S f) d e s i = (s1, Err ELinkTarget).
 Proof.
   intros Hn Hl Hr Hg Hm. rewrite chase_miss by assumption. unfold LOOP_FUEL. rewrite chase_loop_S. unfold hop.
   rewrite Hn, Hl. destruct (nonempty file).
@@ -596,14 +612,14 @@ Proof.
   - destruct Hr as [-> ->]. rewrite Hg. reflexivity.
 Qed.
 
-Theorem read_changes_no_file fuel s i what : a_disk (fst (adf_read fuel s i what)) = a_disk s.
-Proof. unfold adf_read. destruct (negb (file_open s (fst i))); [reflexivity|]. destruct (adf_get true fuel (a_disk s) (a_env s) (mkRs (a_cache s) []) i what). reflexivity. Qed.
-Theorem lookup_changes_no_file fuel s i name : a_disk (fst (adf_lookup fuel s i name)) = a_disk s.
-Proof. unfold adf_lookup. destruct (negb (file_open s (fst i))); [reflexivity|]. destruct (lookup true fuel (a_disk s) (a_env s) (mkRs (a_cache s) []) i name). reflexivity. Qed.
+Theorem read_changes_no_file v fuel s i what : a_disk (fst (adf_read v fuel s i what)) = a_disk s.
+Proof. unfold adf_read. destruct (negb (file_open s (fst i))); [reflexivity|]. destruct (adf_get v true fuel (a_disk s) (a_env s) (mkRs (a_cache s) []) i what). reflexivity. Qed.
+Theorem lookup_changes_no_file v fuel s i name : a_disk (fst (adf_lookup v fuel s i name)) = a_disk s.
+Proof. unfold adf_lookup. destruct (negb (file_open s (fst i))); [reflexivity|]. destruct (lookup v true fuel (a_disk s) (a_env s) (mkRs (a_cache s) []) i name). reflexivity. Qed.
 
 (* a failing read through a link answers with an error value, never with data *)
-Theorem dangling_read_is_error uc fuel d e s i what s' x : what <> 0 -> what <> 4 -> what <> 5 ->
-  chase uc fuel d e s i = (s', Err x) -> node_at d i <> None -> adf_get uc fuel d e s i what = (s', AErr x).
+Theorem dangling_read_is_error v uc fuel d e s i what s' x : what <> 0 -> what <> 4 -> what <> 5 ->
+  chase v uc fuel d e s i = (s', Err x) -> node_at d i <> None -> adf_get v uc fuel d e s i what = (s', AErr x).
 Proof.
   intros H0 H4 H5 Hc Hn. unfold adf_get. destruct (node_at d i); [|contradiction].
   destruct (Z.eqb_spec what 0); [contradiction|]. destruct (Z.eqb_spec what 4); [contradiction|].
@@ -611,40 +627,45 @@ Proof.
 Qed.
 
 (* ===================================================================================================================
-   7. the one-entry cache is NOT coherent: renaming the target leaves the cached answer in place
+   7. the one-entry cache and the rename: Old kept the cached answer (stale), Cur clears the cache
    =================================================================================================================== *)
 Definition s_of (r : ast * result) : ast := fst r.
 Definition bA : bytes := [65].  Definition bB : bytes := [66].  Definition bC : bytes := [67].
-Definition stale_session : ast :=
+Definition stale_session (v : ver) : ast :=
   let s1 := s_of (adf_open ast0 fA true) in
-  let s2 := s_of (adf_mutate s1 fA (OCreate 0 1 bA)) in
-  let s3 := s_of (adf_mutate s2 fA (OCreate 1 2 bB)) in
-  let s4 := s_of (adf_mutate s3 fA (OLabel 2 [76; 98])) in
-  let s5 := s_of (adf_mutate s4 fA (OLink 0 3 [76] [] [47; 65; 47; 66])) in     (* /L -> /A/B *)
-  let s6 := fst (adf_read 8 s5 (fA, 3) 1) in                                     (* read the label through L *)
-  s_of (adf_mutate s6 fA (ORename 1 2 bC)).                                      (* rename B to C *)
+  let s2 := s_of (adf_mutate v s1 fA (OCreate 0 1 bA)) in
+  let s3 := s_of (adf_mutate v s2 fA (OCreate 1 2 bB)) in
+  let s4 := s_of (adf_mutate v s3 fA (OLabel 2 [76; 98])) in
+  let s5 := s_of (adf_mutate v s4 fA (OLink 0 3 [76] [] [47; 65; 47; 66])) in   (* /L -> /A/B *)
+  let s6 := fst (adf_read v 8 s5 (fA, 3) 1) in                                   (* read the label through L *)
+  s_of (adf_mutate v s6 fA (ORename 1 2 bC)).                                    (* rename B to C *)
 
-Theorem cache_refuted :
-  snd (adf_read 8 stale_session (fA, 3) 1) = AVal (RBytes [76; 98]) /\            (* the cached answer: B's label *)
-  resolve 8 (a_disk stale_session) (a_env stale_session) (fA, 3) = Err ELinkTarget.  (* full resolution: gone *)
+Theorem cache_old_refuted :
+  snd (adf_read Old 8 (stale_session Old) (fA, 3) 1) = AVal (RBytes [76; 98]) /\       (* the cached answer: B's label *)
+  resolve Old 8 (a_disk (stale_session Old)) (a_env (stale_session Old)) (fA, 3) = Err ELinkTarget.
 Proof. split; vm_compute; reflexivity. Qed.
 
-(* the same history with a delete + re-create of the target instead of the rename: the cache was cleared *)
-Example cache_cleared_by_delete :
+(* the same history on the current code: the rename cleared the cache, the link is reported dangling *)
+Example cache_cleared_by_rename :
+  a_cache (stale_session Cur) = None /\ snd (adf_read Cur 100 (stale_session Cur) (fA, 3) 1) = AErr ELinkTarget.
+Proof. split; vm_compute; reflexivity. Qed.
+
+(* the same history with a delete + re-create of the target instead of the rename: the cache was always cleared *)
+Example cache_cleared_by_delete : forall v,
   let s1 := s_of (adf_open ast0 fA true) in
-  let s2 := s_of (adf_mutate s1 fA (OCreate 0 1 bA)) in
-  let s3 := s_of (adf_mutate s2 fA (OCreate 1 2 bB)) in
-  let s5 := s_of (adf_mutate s3 fA (OLink 0 3 [76] [] [47; 65; 47; 66])) in
-  let s6 := fst (adf_read 8 s5 (fA, 3) 1) in
-  let s7 := s_of (adf_mutate s6 fA (ODelete 1 2)) in
-  a_cache s6 = Some ((fA, 3), (fA, 2)) /\ a_cache s7 = None /\ snd (adf_read 8 s7 (fA, 3) 1) = AErr ELinkTarget.
-Proof. vm_compute. repeat split. Qed.
+  let s2 := s_of (adf_mutate v s1 fA (OCreate 0 1 bA)) in
+  let s3 := s_of (adf_mutate v s2 fA (OCreate 1 2 bB)) in
+  let s5 := s_of (adf_mutate v s3 fA (OLink 0 3 [76] [] [47; 65; 47; 66])) in
+  let s6 := fst (adf_read v 8 s5 (fA, 3) 1) in
+  let s7 := s_of (adf_mutate v s6 fA (ODelete 1 2)) in
+  a_cache s6 = Some ((fA, 3), (fA, 2)) /\ a_cache s7 = None /\ snd (adf_read v 8 s7 (fA, 3) 1) = AErr ELinkTarget.
+Proof. intros [|]; vm_compute; repeat split. Qed.
 
 (* ===================================================================================================================
    8. implicitly opened files: ADFI_close_file
    =================================================================================================================== *)
 (* finding #9: B holds the target, A links to B, C links to A.  A and C are opened by the caller and read through;
-   closing C closes B although A -- still open -- links to it *)
+   with Old, closing C closed B although A -- still open -- links to it *)
 Definition fB : bytes := [98].  Definition fC : bytes := [99].
 Definition three_files : slots :=
   let '(s1, _) := slot_open [] fA in
@@ -652,83 +673,197 @@ Definition three_files : slots :=
   let s3 := slots_apply s2 [(fA, fB)] in                     (* read through A's link: opens B *)
   slots_apply s3 [(fC, fA); (fA, fB)].                       (* read through C's link: A found, then B found *)
 
-Theorem close_refuted :
-  exists sl', slot_close 8 three_files 1 = Some (sl', true) /\             (* closing C ... *)
+Theorem close_old_refuted :
+  exists sl', slot_close Old 8 three_files 1 = Some (sl', true) /\         (* closing C ... *)
     sl_use (nthZ sl' 0 free_slot) = 1 /\ In 2 (sl_links (nthZ sl' 0 free_slot)) /\   (* ... A is open and lists B ... *)
     sl_use (nthZ three_files 2 free_slot) = 1 /\ sl_use (nthZ sl' 2 free_slot) = 0.  (* ... B has been closed *)
 Proof. eexists. vm_compute. repeat split; try reflexivity. now left. Qed.
 
-(* two files that link to each other: the close recursion has no base case *)
+(* the current code on the same state: closing C releases C's reference on A and nothing else; B goes only with A *)
+Example close_cur_three_files :
+  exists sl' sl'', slot_close Cur 8 three_files 1 = Some (sl', true) /\
+    sl_use (nthZ sl' 0 free_slot) = 1 /\ sl_use (nthZ sl' 2 free_slot) = 1 /\
+    slot_close Cur 8 sl' 0 = Some (sl'', true) /\ sl_use (nthZ sl'' 2 free_slot) = 0.
+Proof. eexists. eexists. vm_compute. repeat split; reflexivity. Qed.
+
+(* THE REPAIR, for every state: while a file has another reference, closing it only drops that one reference -- no
+   file it links to is touched, nothing is closed, the cache is kept *)
+Theorem close_keeps_linked_files : forall fuel sl k x,
+  0 <= k < lenZ sl -> x = nthZ sl k free_slot -> 1 < sl_use x ->
+  slot_close Cur (S fuel) sl k = Some (updZ sl k (mkSl (sl_name x) (sl_use x - 1) (sl_links x)), false).
+Proof.
+  intros fuel sl k x Hk -> Hu. cbn [slot_close].
+  destruct (Z.ltb_spec k 0); [lia|]. destruct (Z.leb_spec (lenZ sl) k); [lia|].
+  destruct (Z.eqb_spec (sl_use (nthZ sl k free_slot)) 0); [lia|]. cbn [orb].
+  destruct (Z.eqb_spec (sl_use (nthZ sl k free_slot) - 1) 0); [lia|reflexivity].
+Qed.
+
+(* two files that link to each other: Old's close recursion had no base case *)
 Definition mutual_files : slots :=
   let '(s1, _) := slot_open [] fA in
   slots_apply s1 [(fA, fB); (fB, fA)].                       (* A:/LA -> B:/LB -> A:/T, read once *)
 
-Theorem close_recursion_refuted : forall fuel, slot_close fuel mutual_files 0 = None /\ slot_close fuel mutual_files 1 = None.
+Theorem close_recursion_old_refuted : forall fuel,
+  slot_close Old fuel mutual_files 0 = None /\ slot_close Old fuel mutual_files 1 = None.
 Proof.
   induction fuel as [|fuel [IH0 IH1]]; [split; reflexivity|].
-  split; cbn [slot_close]; vm_compute nthZ.
-  - change (slot_close (S fuel) mutual_files 0 = None). cbn [slot_close].
+  split.
+  - change (slot_close Old (S fuel) mutual_files 0 = None). cbn [slot_close].
     replace (nthZ mutual_files 0 free_slot) with (mkSl fA 2 [1]) by (vm_compute; reflexivity).
     replace ((0 <? 0) || (lenZ mutual_files <=? 0) || (sl_use (mkSl fA 2 [1]) =? 0)) with false by (vm_compute; reflexivity).
     cbn [sl_links fold_left]. rewrite IH1. reflexivity.
-  - change (slot_close (S fuel) mutual_files 1 = None). cbn [slot_close].
+  - change (slot_close Old (S fuel) mutual_files 1 = None). cbn [slot_close].
     replace (nthZ mutual_files 1 free_slot) with (mkSl fB 1 [0]) by (vm_compute; reflexivity).
     replace ((1 <? 0) || (lenZ mutual_files <=? 1) || (sl_use (mkSl fB 1 [0]) =? 0)) with false by (vm_compute; reflexivity).
     cbn [sl_links fold_left]. rewrite IH0. reflexivity.
 Qed.
 
+(* the current code returns at once: the caller's reference goes, the two files keep each other open (a leak, C17) *)
+Example close_cur_mutual :
+  exists sl', slot_close Cur 1 mutual_files 0 = Some (sl', false) /\
+    sl_use (nthZ sl' 0 free_slot) = 1 /\ sl_use (nthZ sl' 1 free_slot) = 1.
+Proof. eexists. vm_compute. repeat split; reflexivity. Qed.
+
 (* ===================================================================================================================
-   9. ADFH: one hop only
+   9. ADFH: Old followed one hop only; Cur repeats the hop up to the depth limit.  Stored paths through links and the
+      search path are still not handled (known findings).
    =================================================================================================================== *)
 Lemma is_link_false r : n_link r = None -> is_link r = false.
 Proof. unfold is_link. now intros ->. Qed.
+Lemma is_link_false_inv r : is_link r = false -> n_link r = None.
+Proof. unfold is_link. destruct (n_link r); [discriminate|reflexivity]. Qed.
 
-(* when the node the " link" member names is not itself a link, ADFH is transparent *)
-Theorem h5_transparent_one_hop d i l what : what <> 0 -> what <> 4 -> what <> 5 ->
-  node_at d i <> None -> h5_open_link d i = Ok l -> nonlink d l -> h5_get d i what = AVal (node_attr d l what).
+Lemma child_named_exists d i nm k : child_named d i nm = Some k -> exists r, node_at d k = Some r.
 Proof.
-  intros H0 H4 H5 Hn Ho [r [Hr Hl]]. unfold h5_get. destruct (node_at d i); [|contradiction].
+  unfold child_named, kids_at, node_at. destruct (disk_get d (fst i)) as [f|] eqn:E; [|cbn; discriminate].
+  destruct (find_child (children (d_tab f) (snd i)) nm) as [r|] eqn:Ef; [|discriminate]. intros H. inversion H; subst k. cbn [fst snd].
+  rewrite E. clear H. unfold children in Ef.
+  assert (Hin : In r (d_tab f)).
+  { clear E. induction (d_tab f) as [|x t IH]; cbn [filter find_child] in Ef; [discriminate|].
+    destruct (n_parent x =? snd i); [|right; now apply IH]. cbn [find_child] in Ef.
+    destruct (bytes_eqb (n_name x) nm); [inversion Ef; now left|right; now apply IH]. }
+  clear Ef. induction (d_tab f) as [|x t IH]; [contradiction|]. cbn [find_node].
+  destruct (Z.eqb_spec (n_uid x) (n_uid r)) as [E1|E1]; [eauto|]. destruct Hin as [->|Hin]; [contradiction|now apply IH].
+Qed.
+
+Lemma raw_walk_exists d : forall toks cur t, raw_walk d cur toks = Some t -> exists r, node_at d t = Some r.
+Proof.
+  induction toks as [|x rest IH]; intros cur t; cbn [raw_walk].
+  - destruct (node_at d cur) as [r|] eqn:E; [|discriminate]. intros H. inversion H; subst. eauto.
+  - destruct (child_named d cur x) as [k|]; [apply IH|discriminate].
+Qed.
+
+Lemma open_link_1_exists d i l : h5_open_link_1 d i = Ok l -> exists r, node_at d l = Some r.
+Proof.
+  unfold h5_open_link_1. destruct (node_at d i) as [r|] eqn:E; [|discriminate].
+  destruct (n_link r) as [[file path]|]; [|intros H; inversion H; subst; eauto].
+  destruct (if nonempty file then match h5_first d (h5_cands (fst i) file) with Some p => Some (p, root_uid) | None => None end
+            else Some (root_of i)) as [rt|]; [|discriminate].
+  destruct (raw_walk d rt (tokens path)) as [t|] eqn:Ew; [|discriminate]. intros H. inversion H; subst.
+  now apply (raw_walk_exists d _ _ _ Ew).
+Qed.
+
+Lemma h5_follow_nonlink d : forall n depth l t, (exists r, node_at d l = Some r) -> h5_follow n depth d l = Ok t -> nonlink d t.
+Proof.
+  induction n as [|n IH]; intros depth l t Hl; cbn [h5_follow]; [discriminate|].
+  destruct (h5_is_link d l) eqn:E.
+  - destruct (depth + 1 >=? ADF_MAXIMUM_LINK_DEPTH); [discriminate|].
+    destruct (h5_open_link_1 d l) as [l'|x] eqn:Eo; [|discriminate]. apply IH. now apply (open_link_1_exists d l).
+  - intros H. inversion H; subst t. destruct Hl as [r Hr]. exists r. split; [assumption|].
+    unfold h5_is_link in E. rewrite Hr in E. now apply is_link_false_inv.
+Qed.
+
+(* the loop of open_link is bounded by its own counter: Coq fuel beyond 100 - depth is never used *)
+Lemma h5_follow_fuel_irrelevant d : forall n m depth l, 0 <= depth <= 99 ->
+  (Z.to_nat (100 - depth) <= n)%nat -> (Z.to_nat (100 - depth) <= m)%nat -> h5_follow n depth d l = h5_follow m depth d l.
+Proof.
+  induction n as [|n IH]; intros m depth l Hd Hn Hm; [lia|]. destruct m as [|m]; [lia|]. cbn [h5_follow].
+  destruct (h5_is_link d l); [|reflexivity]. unfold ADF_MAXIMUM_LINK_DEPTH.
+  destruct (Z.geb_spec (depth + 1) 100); [reflexivity|]. destruct (h5_open_link_1 d l); [|reflexivity]. apply IH; lia.
+Qed.
+
+Lemma h5_follow_no_stack d : forall n depth l, 0 <= depth <= 99 -> (Z.to_nat (100 - depth) <= n)%nat ->
+  h5_follow n depth d l <> Err EStack.
+Proof.
+  induction n as [|n IH]; intros depth l Hd Hn; [lia|]. cbn [h5_follow].
+  destruct (h5_is_link d l); [|discriminate]. unfold ADF_MAXIMUM_LINK_DEPTH.
+  destruct (Z.geb_spec (depth + 1) 100); [discriminate|].
+  assert (H1 : forall x, h5_open_link_1 d l = Err x -> x <> EStack).
+  { unfold h5_open_link_1. intros x. destruct (node_at d l) as [n0|]; [|intros H; inversion H; discriminate].
+    destruct (n_link n0) as [[file path]|]; [|discriminate].
+    destruct (if nonempty file then match h5_first d (h5_cands (fst l) file) with Some p => Some (p, root_uid) | None => None end
+              else Some (root_of l)) as [rt|]; [|intros H; inversion H; discriminate].
+    destruct (raw_walk d rt (tokens path)); [discriminate|intros H; inversion H; discriminate]. }
+  destruct (h5_open_link_1 d l) as [l'|x] eqn:E; [apply IH; lia|]. intros HH. inversion HH. now apply (H1 x).
+Qed.
+
+(* TRANSPARENT (current ADFH): whatever is read through a node that resolves is the attribute of a node that is not a link *)
+Theorem h5_transparent d i what val : what <> 0 -> what <> 4 -> what <> 5 ->
+  h5_get Cur d i what = AVal val ->
+  exists l, h5_open_link Cur d i = Ok l /\ nonlink d l /\ val = node_attr d l what.
+Proof.
+  intros H0 H4 H5. unfold h5_get. destruct (node_at d i) as [r|] eqn:En; [|discriminate].
   destruct (Z.eqb_spec what 0); [contradiction|]. destruct (Z.eqb_spec what 4); [contradiction|].
-  destruct (Z.eqb_spec what 5); [contradiction|]. rewrite Ho. unfold h5_raw_attr. rewrite Hr, (is_link_false _ Hl).
+  destruct (Z.eqb_spec what 5); [contradiction|].
+  destruct (h5_open_link Cur d i) as [l|x] eqn:Eo; [|discriminate]. intros H. inversion H; subst val. exists l.
+  assert (Hn : nonlink d l).
+  { cbn [h5_open_link] in Eo. destruct (h5_open_link_1 d i) as [l1|x] eqn:E1; [|discriminate].
+    apply (h5_follow_nonlink d 100 0 l1 l); [now apply (open_link_1_exists d i)|assumption]. }
+  split; [reflexivity|]. split; [assumption|]. destruct Hn as [r' [Hr' Hl']]. unfold h5_raw_attr. rewrite Hr', (is_link_false _ Hl').
   reflexivity.
 Qed.
 
-(* /L1 -> /L2 -> /T in one HDF5 file: ADFH answers with L2's own (empty) label and the type "LK", status ok, where
-   full resolution reaches T *)
+(* and the resolution never runs out of anything: it answers, or fails with an error of the library *)
+Theorem h5_open_link_returns d i : h5_open_link Cur d i <> Err EStack.
+Proof.
+  cbn [h5_open_link]. destruct (h5_open_link_1 d i) as [l|x] eqn:E.
+  - apply h5_follow_no_stack; [lia|cbn; lia].
+  - intros H. inversion H; subst x. revert E. unfold h5_open_link_1. destruct (node_at d i); [|discriminate].
+    destruct (n_link n) as [[file path]|]; [|discriminate].
+    destruct (if nonempty file then match h5_first d (h5_cands (fst i) file) with Some p => Some (p, root_uid) | None => None end
+              else Some (root_of i)) as [rt|]; [|discriminate].
+    destruct (raw_walk d rt (tokens path)); discriminate.
+Qed.
+
+(* /L1 -> /L2 -> /T in one HDF5 file: Old answered with L2's own (empty) label and the type "LK", status ok *)
 Definition fH : bytes := [104].
 Definition w_chain : disk :=
   [mkD fH 2 (h5_root_table ++ [mkN 1 0 [84] [76; 98] s_MT [] [] None;
                                mkN 2 0 [76; 50] [] s_LK [] [] (Some ([], [47; 84]));
                                mkN 3 0 [76; 49] [] s_LK [] [] (Some ([], [47; 76; 50]))])].
-Theorem h5_chain_refuted :
-  h5_get w_chain (fH, 3) 1 = AVal (RBytes []) /\ h5_get w_chain (fH, 3) 2 = AVal (RBytes s_LK) /\
-  h5_get w_chain (fH, 3) 7 = AVal (RInt 0) /\
-  resolve 8 w_chain empty_env (fH, 3) = Ok (fH, 1) /\ node_attr w_chain (fH, 1) 1 = RBytes [76; 98].
+Theorem h5_chain_old_refuted :
+  h5_get Old w_chain (fH, 3) 1 = AVal (RBytes []) /\ h5_get Old w_chain (fH, 3) 2 = AVal (RBytes s_LK) /\
+  h5_get Old w_chain (fH, 3) 7 = AVal (RInt 0) /\
+  resolve Cur 100 w_chain empty_env (fH, 3) = Ok (fH, 1) /\ node_attr w_chain (fH, 1) 1 = RBytes [76; 98].
 Proof. repeat split; vm_compute; reflexivity. Qed.
-
-(* a link that names itself: status ok instead of an error *)
-Definition w_self : disk := [mkD fH 2 (h5_root_table ++ [mkN 1 0 [83] [] s_LK [] [] (Some ([], [47; 83]))])].
-Theorem h5_cycle_refuted :
-  h5_get w_self (fH, 1) 1 = AVal (RBytes []) /\ resolve 8 w_self empty_env (fH, 1) = Err ETooDeep.
+Example h5_chain_cur : h5_get Cur w_chain (fH, 3) 1 = AVal (RBytes [76; 98]) /\ h5_open_link Cur w_chain (fH, 3) = Ok (fH, 1).
 Proof. split; vm_compute; reflexivity. Qed.
 
-(* a stored path that passes through a link: libhdf5 walks raw groups and finds nothing below the link node *)
+(* a link that names itself: Old said ok, Cur says LINKS_TOO_DEEP like ADF *)
+Definition w_self : disk := [mkD fH 2 (h5_root_table ++ [mkN 1 0 [83] [] s_LK [] [] (Some ([], [47; 83]))])].
+Theorem h5_cycle_old_refuted :
+  h5_get Old w_self (fH, 1) 1 = AVal (RBytes []) /\ resolve Cur 100 w_self empty_env (fH, 1) = Err ETooDeep.
+Proof. split; vm_compute; reflexivity. Qed.
+Example h5_cycle_cur : h5_get Cur w_self (fH, 1) 1 = AErr ETooDeep.
+Proof. vm_compute. reflexivity. Qed.
+
+(* STILL WRONG: a stored path that passes through a link: libhdf5 walks raw groups and finds nothing below the link *)
 Definition w_via : disk :=
   [mkD fH 2 (h5_root_table ++ [mkN 1 0 [84] [] s_MT [] [] None; mkN 2 1 [75] [107] s_MT [] [] None;
                                mkN 3 0 [76; 50] [] s_LK [] [] (Some ([], [47; 84]));
                                mkN 4 0 [76; 49] [] s_LK [] [] (Some ([], [47; 76; 50; 47; 75]))])].
 Theorem h5_via_refuted :
-  h5_get w_via (fH, 4) 1 = AErr ELinkTarget /\ resolve 8 w_via empty_env (fH, 4) = Ok (fH, 2).
+  h5_get Cur w_via (fH, 4) 1 = AErr ELinkTarget /\ resolve Cur 100 w_via empty_env (fH, 4) = Ok (fH, 2).
 Proof. split; vm_compute; reflexivity. Qed.
 
-(* the link search path is not consulted: the file is found by cgio_find_file (HDF5_LINK_PATH) and not by ADFH *)
+(* STILL WRONG: the link search path is not consulted: found by cgio_find_file (HDF5_LINK_PATH), not by ADFH *)
 Definition w_path : disk :=
   [mkD [47; 109; 47; 97] 2 (h5_root_table ++ [mkN 1 0 [76] [] s_LK [] [] (Some ([98], [47; 84]))]);        (* /m/a: L -> b:/T *)
    mkD [47; 112; 47; 98] 2 (h5_root_table ++ [mkN 1 0 [84] [120] s_MT [] [] None])].                       (* /p/b *)
 Definition e_path : env := mkE [] [47; 112] [] [].                                                          (* HDF5_LINK_PATH=/p *)
 Theorem h5_search_refuted :
   find_file w_path e_path [47; 109; 47; 97] [98] 2 1025 = FOk [47; 112; 47; 98] /\
-  h5_get w_path ([47; 109; 47; 97], 1) 1 = AErr ELinkTarget.
+  h5_get Cur w_path ([47; 109; 47; 97], 1) 1 = AErr ELinkTarget.
 Proof. split; vm_compute; reflexivity. Qed.
 
 (* ===================================================================================================================
@@ -745,22 +880,22 @@ Fixpoint chain_nodes (n : nat) : table :=                      (* L_k (uid k+1) 
 Definition chain_world (n : nat) : disk :=
   [mkD fA 1 (adf_root_table ++ [mkN 1 0 [84] [116] s_MT [] [] None] ++ chain_nodes n)].
 
-Example chain_100_resolves : snd (chase true 3 (chain_world 100) empty_env rs0 (fA, 101)) = Ok (fA, 1).
+Example chain_100_resolves : snd (chase v true 3 (chain_world 100) empty_env rs0 (fA, 101)) = Ok (fA, 1).
 Proof. vm_compute. reflexivity. Qed.
-Example chain_101_too_deep : snd (chase true 3 (chain_world 101) empty_env rs0 (fA, 102)) = Err ETooDeep.
+Example chain_101_too_deep : snd (chase v true 3 (chain_world 101) empty_env rs0 (fA, 102)) = Err ETooDeep.
 Proof. vm_compute. reflexivity. Qed.
-Example chain_101_hops : exists s' t, hops (chase true 2 (chain_world 101) empty_env) (chain_world 101) empty_env 101 rs0 (fA, 102) = Some (s', t).
+Example chain_101_hops : exists s' t, hops (chase v true 2 (chain_world 101) empty_env) (chain_world 101) empty_env 101 rs0 (fA, 102) = Some (s', t).
 Proof. eexists. eexists. vm_compute. reflexivity. Qed.
 Definition w_cycle2 : disk :=
   [mkD fA 1 (adf_root_table ++ [mkN 1 0 [80] [] s_LK [] [] (Some ([], [47; 81])); mkN 2 0 [81] [] s_LK [] [] (Some ([], [47; 80]))])].
-Example cycle_too_deep : snd (chase true 3 w_cycle2 empty_env rs0 (fA, 1)) = Err ETooDeep.
+Example cycle_too_deep : snd (chase v true 3 w_cycle2 empty_env rs0 (fA, 1)) = Err ETooDeep.
 Proof. vm_compute. reflexivity. Qed.
 
 (* ===================================================================================================================
    11. the cache, when it holds what full resolution returns, changes no answer -- and is filled only with such pairs
    =================================================================================================================== *)
 (* full resolution with recursion budget F, from any state *)
-Definition U (d : disk) (e : env) (F : nat) : chaser := chase false F d e.
+Definition U (d : disk) (e : env) (F : nat) : chaser := chase v false F d e.
 
 (* r1 "is refined by" r2: equal, or (when b) r1 ran out of budget *)
 Definition Rb (b : bool) (r1 r2 : res nid) : Prop := r1 = r2 \/ (b = true /\ r1 = Err EStack).
@@ -824,14 +959,14 @@ Proof.
 Qed.
 
 Lemma chase_false_S f d e s i :
-  snd (chase false (S f) d e s i) = snd (chase_loop (chase false f d e) d e LOOP_FUEL 0 s i).
+  snd (chase v false (S f) d e s i) = snd (chase_loop (chase v false f d e) d e LOOP_FUEL 0 s i).
 Proof.
-  cbn [chase]. assert (Hb : snd (let '(s', r) := chase_loop (chase false f d e) d e LOOP_FUEL 0 s i in
+  cbn [chase]. assert (Hb : snd (let '(s', r) := chase_loop (chase v false f d e) d e LOOP_FUEL 0 s i in
                     match r with
                     | Ok l => ((if false && negb (nid_eqb l i) then mkRs (Some (i, l)) (r_log s') else s'), Ok l)
                     | Err x => (s', Err x)
-                    end) = snd (chase_loop (chase false f d e) d e LOOP_FUEL 0 s i)).
-  { destruct (chase_loop (chase false f d e) d e LOOP_FUEL 0 s i) as [s' [l|x]]; reflexivity. }
+                    end) = snd (chase_loop (chase v false f d e) d e LOOP_FUEL 0 s i)).
+  { destruct (chase_loop (chase v false f d e) d e LOOP_FUEL 0 s i) as [s' [l|x]]; reflexivity. }
   destruct (r_cache s) as [[k l]|]; exact Hb.
 Qed.
 
@@ -982,22 +1117,22 @@ Qed.
 Lemma resolves_ok_node d e k l : resolves_to d e k (Ok l) -> nonlink d l.
 Proof.
   intros [F0 HF]. pose proof (HF F0 rs0 (le_n _)) as E. unfold U in E.
-  destruct (chase_pres false d e F0 rs0 k I) as [_ P2]. now apply P2.
+  destruct (chase_pres v false d e F0 rs0 k I) as [_ P2]. now apply P2.
 Qed.
 
 (* CACHE SOUNDNESS: for every world, from a coherent state the cached resolution keeps the state coherent and, unless it
    runs out of recursion budget, answers exactly what full (cache-free) resolution answers once its budget suffices *)
-Theorem chase_sim d e : forall f, sim d e (chase true f d e).
+Theorem chase_sim d e : forall f, sim d e (chase v true f d e).
 Proof.
   induction f as [|f IH]; intros s i Hs; [split; [assumption|intros Hne; now contradiction Hne]|].
   cbn [chase].
-  assert (Hb : let x := (let '(s', r) := chase_loop (chase true f d e) d e LOOP_FUEL 0 s i in
+  assert (Hb : let x := (let '(s', r) := chase_loop (chase v true f d e) d e LOOP_FUEL 0 s i in
                     match r with
                     | Ok l => ((if true && negb (nid_eqb l i) then mkRs (Some (i, l)) (r_log s') else s'), Ok l)
                     | Err x => (s', Err x)
                     end) in coherent d e (fst x) /\ (snd x <> Err EStack -> resolves_to d e i (snd x))).
   { destruct (chase_loop_sim d e _ IH LOOP_FUEL 0 s i Hs) as [H1 H2].
-    destruct (chase_loop (chase true f d e) d e LOOP_FUEL 0 s i) as [s' r] eqn:El; cbn [fst snd] in *.
+    destruct (chase_loop (chase v true f d e) d e LOOP_FUEL 0 s i) as [s' r] eqn:El; cbn [fst snd] in *.
     assert (Hlim : r <> Err EStack -> resolves_to d e i r).
     { intros Hne. destruct (H2 Hne) as [F1 HF1]. exists (S F1). intros F s0 Hle. destruct F as [|F]; [lia|].
       unfold U. rewrite chase_false_S. apply HF1. lia. }
@@ -1012,7 +1147,7 @@ Qed.
 
 (* reading through a link from a coherent state returns an attribute of THE target: the node full resolution reaches *)
 Theorem cached_read_is_full_resolution fuel d e s i what s' v :
-  cache_sane d s -> coherent d e s -> adf_get true fuel d e s i what = (s', AVal v) -> what <> 0 -> what <> 4 -> what <> 5 ->
+  cache_sane d s -> coherent d e s -> adf_get v true fuel d e s i what = (s', AVal v) -> what <> 0 -> what <> 4 -> what <> 5 ->
   exists l, resolves_to d e i (Ok l) /\ nonlink d l /\ v = node_attr d l what /\ cache_sane d s' /\ coherent d e s'.
 Proof.
   intros Hs Hc H H0 H4 H5. destruct (adf_transparent true fuel d e s i what s' v Hs H H0 H4 H5) as [l [E [Hn [Hv Hs']]]].
@@ -1223,7 +1358,7 @@ Definition acoherent (s : ast) : Prop := coherent (a_disk s) (a_env s) (mkRs (a_
    re-dimension, any write, any query, accepted or refused -- a coherent cache stays coherent.  The only modelled
    mutation missing from this list is the rename (C08_cache_refuted shows why). *)
 Theorem mutate_keeps_coherent s f o s' r : (forall p u nm, o <> ORename p u nm) ->
-  acoherent s -> adf_mutate s f o = (s', r) -> acoherent s'.
+  acoherent s -> adf_mutate v s f o = (s', r) -> acoherent s'.
 Proof.
   intros Hnr Hc H. unfold adf_mutate in H. destruct (negb (file_open s f)); [inversion H; subst; exact Hc|].
   destruct (disk_get (a_disk s) f) as [df|] eqn:Eg; [|inversion H; subst; exact Hc].
@@ -1242,27 +1377,28 @@ Proof.
            | context [add_child_effect ?a ?b ?c] => destruct (add_child_effect a b c)
            | context [find_node ?a ?b] => destruct (find_node a b)
            | context [if ?c then _ else _] => destruct c
+           | context [match v with Old => _ | Cur => _ end] => destruct v
            end; inversion H; subst s'; unfold with_disk;
     try (apply Hkeep; first [now left | right; split; reflexivity | apply Hci; reflexivity]).
 Qed.
 
 (* reads and look-ups keep it too (cache soundness), so: along EVERY history of reads, look-ups and mutations other than
    the rename, in a fixed search environment, every answer read through a link is the answer of full resolution *)
-Theorem read_keeps_coherent fuel s i what : acoherent s -> acoherent (fst (adf_read fuel s i what)).
+Theorem read_keeps_coherent fuel s i what : acoherent s -> acoherent (fst (adf_read v fuel s i what)).
 Proof.
   intros Hc. unfold adf_read. destruct (negb (file_open s (fst i))); [exact Hc|].
   unfold adf_get. destruct (node_at (a_disk s) i); [|exact Hc].
   destruct (what =? 0); [exact Hc|]. destruct (what =? 4); [exact Hc|]. destruct (what =? 5); [exact Hc|].
   destruct (chase_sim (a_disk s) (a_env s) fuel (mkRs (a_cache s) []) i Hc) as [C1 _].
-  destruct (chase true fuel (a_disk s) (a_env s) (mkRs (a_cache s) []) i) as [x [l|e]]; cbn [fst] in *;
+  destruct (chase v true fuel (a_disk s) (a_env s) (mkRs (a_cache s) []) i) as [x [l|e]]; cbn [fst] in *;
     unfold acoherent, commit; cbn [a_disk a_env a_cache]; unfold coherent in *; cbn [r_cache] in *; exact C1.
 Qed.
 
-Theorem lookup_keeps_coherent fuel s i name : acoherent s -> acoherent (fst (adf_lookup fuel s i name)).
+Theorem lookup_keeps_coherent fuel s i name : acoherent s -> acoherent (fst (adf_lookup v fuel s i name)).
 Proof.
   intros Hc. unfold adf_lookup. destruct (negb (file_open s (fst i))); [exact Hc|]. unfold lookup.
   destruct (get_node_id_sim (a_disk s) (a_env s) _ (mkRs (a_cache s) []) i name (chase_sim (a_disk s) (a_env s) fuel) Hc) as [C1 _].
-  destruct (get_node_id (chase true fuel (a_disk s) (a_env s)) (a_disk s) (mkRs (a_cache s) []) i name) as [x r]; cbn [fst] in *.
+  destruct (get_node_id (chase v true fuel (a_disk s) (a_env s)) (a_disk s) (mkRs (a_cache s) []) i name) as [x r]; cbn [fst] in *.
   unfold acoherent, commit; cbn [a_disk a_env a_cache]; unfold coherent in *; cbn [r_cache] in *; exact C1.
 Qed.
 
@@ -1277,7 +1413,7 @@ Qed.
 Definition asane (s : ast) : Prop := cache_sane (a_disk s) (mkRs (a_cache s) []).
 
 Theorem mutate_keeps_sane s f o s' r : (forall p u nm, o <> ORename p u nm) ->
-  asane s -> adf_mutate s f o = (s', r) -> asane s'.
+  asane s -> adf_mutate v s f o = (s', r) -> asane s'.
 Proof.
   intros Hnr Hc H. unfold adf_mutate in H. destruct (negb (file_open s f)); [inversion H; subst; exact Hc|].
   destruct (disk_get (a_disk s) f) as [df|] eqn:Eg; [|inversion H; subst; exact Hc].
@@ -1295,26 +1431,27 @@ Proof.
            | context [add_child_effect ?a ?b ?c] => destruct (add_child_effect a b c)
            | context [find_node ?a ?b] => destruct (find_node a b)
            | context [if ?c then _ else _] => destruct c
+           | context [match v with Old => _ | Cur => _ end] => destruct v
            end; inversion H; subst s'; unfold with_disk;
     try (apply Hkeep; first [now left | right; split; reflexivity | apply Hci; reflexivity]).
 Qed.
 
-Theorem read_keeps_sane fuel s i what : asane s -> asane (fst (adf_read fuel s i what)).
+Theorem read_keeps_sane fuel s i what : asane s -> asane (fst (adf_read v fuel s i what)).
 Proof.
   intros Hc. unfold adf_read. destruct (negb (file_open s (fst i))); [exact Hc|].
   unfold adf_get. destruct (node_at (a_disk s) i); [|exact Hc].
   destruct (what =? 0); [exact Hc|]. destruct (what =? 4); [exact Hc|]. destruct (what =? 5); [exact Hc|].
-  destruct (chase_pres true (a_disk s) (a_env s) fuel (mkRs (a_cache s) []) i Hc) as [C1 _].
-  destruct (chase true fuel (a_disk s) (a_env s) (mkRs (a_cache s) []) i) as [x [l|e]]; cbn [fst] in *;
+  destruct (chase_pres v true (a_disk s) (a_env s) fuel (mkRs (a_cache s) []) i Hc) as [C1 _].
+  destruct (chase v true fuel (a_disk s) (a_env s) (mkRs (a_cache s) []) i) as [x [l|e]]; cbn [fst] in *;
     unfold asane, commit; cbn [a_disk a_env a_cache]; unfold cache_sane in *; cbn [r_cache] in *; exact C1.
 Qed.
 
-Theorem lookup_keeps_sane fuel s i name : asane s -> asane (fst (adf_lookup fuel s i name)).
+Theorem lookup_keeps_sane fuel s i name : asane s -> asane (fst (adf_lookup v fuel s i name)).
 Proof.
   intros Hc. unfold adf_lookup. destruct (negb (file_open s (fst i))); [exact Hc|]. unfold lookup.
   pose proof (get_node_id_pres (cache_sane (a_disk s)) (nonlink (a_disk s)) _ (a_disk s) (mkRs (a_cache s) []) i name
-                (chase_pres true (a_disk s) (a_env s) fuel) Hc) as C1.
-  destruct (get_node_id (chase true fuel (a_disk s) (a_env s)) (a_disk s) (mkRs (a_cache s) []) i name) as [x r]; cbn [fst] in *.
+                (chase_pres v true (a_disk s) (a_env s) fuel) Hc) as C1.
+  destruct (get_node_id (chase v true fuel (a_disk s) (a_env s)) (a_disk s) (mkRs (a_cache s) []) i name) as [x r]; cbn [fst] in *.
   unfold asane, commit; cbn [a_disk a_env a_cache]; unfold cache_sane in *; cbn [r_cache] in *; exact C1.
 Qed.
 
@@ -1323,9 +1460,9 @@ Inductive ev := ERead (i : nid) (what : Z) | ELookup (i : nid) (name : bytes) | 
 Definition ev_ok (x : ev) : Prop := match x with EMut _ o => forall p u nm, o <> ORename p u nm | _ => True end.
 Definition ev_step (fuel : nat) (s : ast) (x : ev) : ast :=
   match x with
-  | ERead i w => fst (adf_read fuel s i w)
-  | ELookup i n => fst (adf_lookup fuel s i n)
-  | EMut f o => fst (adf_mutate s f o)
+  | ERead i w => fst (adf_read v fuel s i w)
+  | ELookup i n => fst (adf_lookup v fuel s i n)
+  | EMut f o => fst (adf_mutate v s f o)
   end.
 Definition run_evs (fuel : nat) (s : ast) (l : list ev) : ast := fold_left (ev_step fuel) l s.
 
@@ -1335,7 +1472,7 @@ Proof.
   apply IH; [assumption|]. destruct Hs as [Hs Hc]. destruct x as [i w|i n|f o]; cbn [ev_step].
   - split; [now apply read_keeps_sane|now apply read_keeps_coherent].
   - split; [now apply lookup_keeps_sane|now apply lookup_keeps_coherent].
-  - cbn in Hx. destruct (adf_mutate s f o) as [s' r] eqn:E. cbn [fst].
+  - cbn in Hx. destruct (adf_mutate v s f o) as [s' r] eqn:E. cbn [fst].
     split; [now apply (mutate_keeps_sane s f o s' r)|now apply (mutate_keeps_coherent s f o s' r)].
 Qed.
 
@@ -1345,14 +1482,14 @@ Qed.
 Theorem cache_coherent_without_rename fuel s0 l i what v :
   a_cache s0 = None -> Forall ev_ok l ->
   let s := run_evs fuel s0 l in
-  file_open s (fst i) = true -> snd (adf_read fuel s i what) = AVal v -> what <> 0 -> what <> 4 -> what <> 5 ->
+  file_open s (fst i) = true -> snd (adf_read v fuel s i what) = AVal v -> what <> 0 -> what <> 4 -> what <> 5 ->
   exists t, resolves_to (a_disk s) (a_env s) i (Ok t) /\ nonlink (a_disk s) t /\ v = node_attr (a_disk s) t what.
 Proof.
   intros H0 Hf s Ho Hr W0 W4 W5.
   assert (Hinit : asane s0 /\ acoherent s0) by (unfold asane, acoherent, cache_sane, coherent; cbn [r_cache]; rewrite H0; split; exact I).
   destruct (run_keeps fuel l s0 Hf Hinit) as [Hs Hc]. fold s in Hs, Hc.
   unfold adf_read in Hr. rewrite Ho in Hr. cbn [negb] in Hr.
-  destruct (adf_get true fuel (a_disk s) (a_env s) (mkRs (a_cache s) []) i what) as [x a] eqn:E. cbn [snd] in Hr. subst a.
+  destruct (adf_get v true fuel (a_disk s) (a_env s) (mkRs (a_cache s) []) i what) as [x a] eqn:E. cbn [snd] in Hr. subst a.
   destruct (cached_read_is_full_resolution fuel _ _ _ i what x v Hs Hc E W0 W4 W5) as [t [R [N [V _]]]].
   exists t. auto.
 Qed.
